@@ -29,6 +29,17 @@ def compare(vec, got, out):
             ok = len(exp) == len(r["ok"]) and all(abs(a - b) <= 1e-9 * max(1.0, abs(a)) for a, b in zip(exp, r["ok"]))
             if not ok:
                 bad.append(f"mean[{flavour}] = {r['ok']}, specified {exp}")
+        # mean over narrow columns (see agg-replay): i16 column holding 10000*v, f32 column in which 3 stands for 2^24
+        n = len(vec["input"])
+        narrow = [("meanf32", [sum(16777216 if v == 3 else v for v in vec["input"]) / n] if n else [])]
+        if g.get("mean16") is not None:
+            narrow.append(("mean16", [10000 * m[0] / m[1] for m in vec["mean"]]))
+        for name, exp in narrow:
+            r = g[name]
+            if "panic" in r:
+                bad.append(f"{name}[{flavour}] panicked: {r['panic']}")
+            elif not (len(exp) == len(r["ok"]) and all(abs(a - b) <= 1e-9 * max(1.0, abs(a)) for a, b in zip(exp, r["ok"]))):
+                bad.append(f"{name}[{flavour}] = {r['ok']}, specified {exp}")
         prev = None
         for pv, pg in zip(vec["pct"], g["pct"]):
             assert pv["pm"] == pg["pm"]
@@ -63,7 +74,7 @@ def run(pid, tier, seed, replay=None):
     out.rule = ("TLC enumerates every input sequence over the configured value set up to the length bound (one state "
                 "per sequence); a case is one (sequence) vector carrying the prescribed results of all aggregators and "
                 "percentile arguments; non-trivial = non-empty input with at least two distinct values")
-    out.assumptions = ["values fit i64/i32; mean compared with relative tolerance 1e-9 against the exact rational",
+    out.assumptions = ["values fit i64/i32; mean additionally taken over an i16 column (values x 10000, sums exceed i16) and an f32 column (3 -> 2^24); mean compared with relative tolerance 1e-9 against the exact rational",
                        "percentile judged by: element of input, rank floor(n*p/100) (clamped) exactly for whole percentages, within one position of n*p/100 for fractional p (f64 rounding), exact at p=0 and p=100, monotone in p"]
     try:
         bindir = cargo_build_or_die(["agg-replay"])
